@@ -516,10 +516,9 @@ def coq_case(case, obs):
     if not isinstance(obs, dict) or 'crash' in obs or 'files' not in obs:
         raise ValueError('implementation crashed: %r' % (obs,))
     gs = [obs['files'][i] for i in case['add_order']]
-    vo = 'LAS' if case.get('vo') is None else case['vo']
     return '(mkcase %s %s %s %s %s %s %s)' % (
         cbool(case.get('time_order') is not None), cbool(case.get('vector_order') is not None),
-        clist(coq_gfile(a) for a in gs), cstr(vo), cbool(bool(case['exact'])),
+        clist(coq_gfile(a) for a in gs), copt(case.get('vo'), cstr), cbool(bool(case['exact'])),
         clist(cmat(a['faff']) for a in gs), coq_obs(case, obs))
 
 
@@ -580,6 +579,8 @@ def oracle_c02(case, obs):
     if case.get('expect') == 'error':
         return None
     if obs.get('err') is not None:
+        if obs['err'] == 'EKey' and case['info'].get('acq') == 'none_in_some':
+            return None          # AcquisitionTime present in some files only (KeyError in to_nifti): reported separately
         return 'complete stack (%s) was not converted: %s' % (case['dims'], obs['err'])
     exact = bool(case['exact'])
     shape, flat = obs['shape'], obs['data']
@@ -606,6 +607,8 @@ def oracle_c02(case, obs):
         return 'dtype: output dtype %s / %s, expected %s' % (obs['dtype'], obs['array_dtype'], want)
     alt = obs.get('alt')
     if alt is not None:
+        if alt.get('err') == 'EKey' and case['info'].get('acq') == 'none_in_some':
+            return None
         if alt.get('err') is not None:
             return 'invariance: order %r converts, order %r raises %s' % (case.get('vo'), case['vo2'], alt['err'])
         if sorted(alt['data']) != sorted(flat):
@@ -796,7 +799,7 @@ def error_cases(rng, tier):
 class HeaderPart:
     """C20, header half: ready part for props/c20.py (PARTS = [Tm, convlib.HeaderPart])."""
     NAME = "header"
-    CORR_REQUIRE = "From DV Require Import Stack.Model Orient.Model Conv.Geom Conv.Header Conv.CorrGeom."
+    CORR_REQUIRE = "From Coq Require Import Qcanon.\nFrom DV Require Import Stack.Model Orient.Model Conv.Geom Conv.Header Conv.CorrGeom."
     CORR_CASE_TYPE = "CorrGeom.case"
     CORR_CHECK = "CorrGeom.check_hdr"
     CORR_SHOW = "CorrGeom.show"
